@@ -293,7 +293,12 @@ def mixed_ns_ok(ci: int) -> bool:
         ok = True
         for m in MIXED_MAPS:
             exp = [e.get('id') for e in MIXED_ELS if pred(e, m)]
-            c = sv.compile(text, namespaces=m, custom=MIXED_CUSTOM)
+            mm = dict(m) if m is not None else None
+            c = sv.compile(text, namespaces=mm, custom=MIXED_CUSTOM)
+            if mm is not None:
+                # what the caller does with the dictionary afterwards does not change what the prefixes were mapped to
+                mm.clear()
+                mm.update({'i': 'urn:zz', '': 'urn:zz', 'o': 'urn:i', 'html': 'urn:i', 'h': 'urn:o'})
             ok = ok and [e.get('id') for e in c.select(MIXED)] == exp
             ok = ok and [e.get('id') for e in MIXED_ELS if c.match(e)] == exp
             ok = ok and [e.get('id') for e in c.filter(MIXED_ELS)] == exp
